@@ -115,9 +115,10 @@ class RawSQLType(object):
         self.types = types
         self.result_type = result_type
     def __hash__(self):
-        return hash(self.sql) ^ hash(self.types)
+        return hash(self.sql) ^ hash(self.types) ^ hash(self.result_type)
     def __eq__(self, other):
-        return type(other) is RawSQLType and self.sql == other.sql and self.types == other.types
+        return type(other) is RawSQLType and self.sql == other.sql and self.types == other.types \
+               and self.result_type == other.result_type
     def __ne__(self, other):
         return not self.__eq__(other)
 
